@@ -9,9 +9,14 @@ package dirk
 // scenario says; everything from there on is the service's own code: refreshAccounts (specifier ->
 // regex, matching, retain-on-empty), refreshValidators, and the queries.  REAL
 // validatorsmanager/standard.Service over a scripted beacon node.
+//
+// ONE service (and one validators manager) per scenario: the scenario is a history of refreshes and
+// queries on them (c13support.RunHistory), with the refresh job held between its two parts and queries
+// held inside the validators manager's lookup while the refresh job runs.
 
 import (
 	"context"
+	"sync"
 	"testing"
 	"time"
 
@@ -28,12 +33,22 @@ import (
 // c13Wallet is a real nd wallet (ID, Name, ... promoted) whose Accounts are scripted.
 type c13Wallet struct {
 	e2wtypes.Wallet
+	mu      sync.Mutex
 	offered []e2wtypes.Account
 }
 
+func (w *c13Wallet) offer(accounts []e2wtypes.Account) {
+	w.mu.Lock()
+	defer w.mu.Unlock()
+	w.offered = accounts
+}
+
 func (w *c13Wallet) Accounts(_ context.Context) <-chan e2wtypes.Account {
-	ch := make(chan e2wtypes.Account, len(w.offered))
-	for _, a := range w.offered {
+	w.mu.Lock()
+	offered := w.offered
+	w.mu.Unlock()
+	ch := make(chan e2wtypes.Account, len(offered))
+	for _, a := range offered {
 		ch <- a
 	}
 	close(ch)
@@ -52,75 +67,78 @@ func TestVerifC13Dirk(t *testing.T) {
 	ct := verifsupport.NewChainTime(32, 12*time.Second)
 
 	for _, sc := range scenarios {
-		var s *Service
-		var node *c13support.Node
+		if len(sc.Steps) == 0 || sc.Steps[0].Ev != "Reset" {
+			t.Fatalf("scenario %d does not start with Reset", sc.Sc)
+		}
+		st := sc.Steps[0]
+		if st.Mgr != "dirk" {
+			t.Fatalf("scenario %d is for manager %q", sc.Sc, st.Mgr)
+		}
+		if u == nil {
+			u = c13support.BuildUniverse(ctx, t, store, st.Wallets)
+		} else if !u.Same(st.Wallets) {
+			t.Fatalf("scenario %d uses another universe of names", sc.Sc)
+		}
+		node := c13support.NewNode(u)
+		vm := &c13support.GatedVM{Real: c13support.NewValidatorsManager(ctx, t, node)}
+		s, err := New(ctx,
+			WithLogLevel(zerolog.Disabled),
+			WithMonitor(nullmetrics.New()),
+			WithClientMonitor(nullmetrics.New()),
+			WithProcessConcurrency(4),
+			WithTimeout(250*time.Millisecond),
+			WithEndpoints([]string{"localhost:1"}),
+			WithAccountPaths(st.Paths),
+			WithClientCert([]byte(resources.ClientTest01Crt)),
+			WithClientKey([]byte(resources.ClientTest01Key)),
+			WithCACert([]byte(resources.CACrt)),
+			WithValidatorsManager(vm),
+			WithDomainProvider(mock.NewDomainProvider()),
+			WithFarFutureEpochProvider(mock.NewFarFutureEpochProvider(c13support.FarFutureEpoch)),
+			WithCurrentEpochProvider(ct),
+		)
+		if err != nil {
+			t.Fatalf("scenario %d: dirk New: %v", sc.Sc, err)
+		}
+		if len(s.accounts) != 0 || node.Calls() != 0 {
+			t.Fatalf("scenario %d: the service found accounts without a server", sc.Sc)
+		}
+		// from now on the service's wallets are the scripted ones
 		wallets := map[string]*c13Wallet{}
-		for _, st := range sc.Steps {
-			switch st.Ev {
-			case "Reset":
-				if st.Mgr != "dirk" {
-					t.Fatalf("scenario %d is for manager %q", sc.Sc, st.Mgr)
-				}
-				if u == nil {
-					u = c13support.BuildUniverse(ctx, t, store, st.Wallets)
-				} else if !u.Same(st.Wallets) {
-					t.Fatalf("scenario %d uses another universe of names", sc.Sc)
-				}
-				node = c13support.NewNode(u)
-				var err error
-				s, err = New(ctx,
-					WithLogLevel(zerolog.Disabled),
-					WithMonitor(nullmetrics.New()),
-					WithClientMonitor(nullmetrics.New()),
-					WithProcessConcurrency(4),
-					WithTimeout(250*time.Millisecond),
-					WithEndpoints([]string{"localhost:1"}),
-					WithAccountPaths(st.Paths),
-					WithClientCert([]byte(resources.ClientTest01Crt)),
-					WithClientKey([]byte(resources.ClientTest01Key)),
-					WithCACert([]byte(resources.CACrt)),
-					WithValidatorsManager(c13support.NewValidatorsManager(ctx, t, node)),
-					WithDomainProvider(mock.NewDomainProvider()),
-					WithFarFutureEpochProvider(mock.NewFarFutureEpochProvider(c13support.FarFutureEpoch)),
-					WithCurrentEpochProvider(ct),
-				)
-				if err != nil {
-					t.Fatalf("scenario %d: dirk New: %v", sc.Sc, err)
-				}
-				if len(s.accounts) != 0 || node.Calls != 0 {
-					t.Fatalf("scenario %d: the service found accounts without a server", sc.Sc)
-				}
-				// from now on the service's wallets are the scripted ones
-				s.walletsMutex.Lock()
-				for name, w := range u.Wallets {
-					wallets[name] = &c13Wallet{Wallet: w}
-					s.wallets[name] = wallets[name]
-				}
-				s.walletsMutex.Unlock()
-				tr.Emit(verifsupport.Ev{"sc": sc.Sc, "ev": "Reset", "mgr": st.Mgr, "cfg": st.Cfg, "paths": st.Paths})
-			case "Refresh":
-				node.Script(st.Mode, st.Recs)
-				for _, w := range wallets {
-					w.offered = nil
-				}
-				for _, n := range st.Offer {
-					w, ok := wallets[n.W]
+		s.walletsMutex.Lock()
+		for name, w := range u.Wallets {
+			wallets[name] = &c13Wallet{Wallet: w}
+			s.wallets[name] = wallets[name]
+		}
+		s.walletsMutex.Unlock()
+		scID := sc.Sc
+		in := &c13support.Instances{
+			U:    u,
+			Node: node,
+			VM:   vm,
+			Offer: func(offer []c13support.Name) {
+				per := map[string][]e2wtypes.Account{}
+				for _, n := range offer {
+					_, ok := wallets[n.W]
 					acc, ok2 := u.Accounts[n.Text()]
 					if !ok || !ok2 {
-						t.Fatalf("scenario %d offers unknown account %s", sc.Sc, n.Text())
+						t.Fatalf("scenario %d offers unknown account %s", scID, n.Text())
 					}
-					w.offered = append(w.offered, acc)
+					per[n.W] = append(per[n.W], acc)
 				}
-				s.Refresh(ctx)
+				for name, w := range wallets {
+					w.offer(per[name])
+				}
+			},
+			Refresh: func(ctx context.Context) { s.Refresh(ctx) },
+			Manager: func() c13support.Manager { return s },
+			Known: func() []c13support.Name {
 				s.mutex.RLock()
-				known := u.Known(s.accounts)
-				s.mutex.RUnlock()
-				tr.Emit(c13support.RefreshEvent(sc.Sc, st, known, u.Table(ctx, s.validatorsManager), node.Calls))
-			case "Query":
-				c13support.Query(ctx, t, tr, u, sc.Sc, st, s)
-			default:
-				t.Fatalf("unknown step %q", st.Ev)
-			}
+				defer s.mutex.RUnlock()
+				return u.Known(s.accounts)
+			},
 		}
+		tr.Emit(verifsupport.Ev{"sc": sc.Sc, "ev": "Reset", "mgr": st.Mgr, "cfg": st.Cfg, "paths": st.Paths})
+		c13support.RunHistory(ctx, t, tr, sc.Sc, in, sc.Steps[1:])
 	}
 }
